@@ -70,6 +70,16 @@ ED = {}
 ES = set()
 ED2 = dict()
 
+# mutable state reachable only through a dict key / set element (closures, bound methods and tuples of them are hashable)
+def mkkeys():
+    hidden = [1]
+    hidden2 = [1]
+    def push(v):
+        hidden.append(v)
+        return len(hidden)
+    return {push: "closure", (hidden2.append,): "tuple of bound method"}, set([push, (hidden2.append,)])
+KD, KS = mkkeys()
+
 # nested combinations
 NL = [L, (D, S), R, [T]]
 ND = {"l": NL, "r": R, "t": (T, T), "k": {"deep": [D]}}
@@ -820,6 +830,21 @@ func c05Generic(e *c05Env, helpers starlark.StringDict, tr *c05Tracer, run, name
 func c05DoEmpty(e *c05Env, sb *strings.Builder, in *c05Inst, twin *c05Inst, op, kind string) {
 	names := map[string][]string{"list": {"EL"}, "dict": {"ED", "ED2"}, "set": {"ES"}}
 	h := in.helpers
+	if op == "mutate" && (kind == "dict" || kind == "set") {
+		// keys / elements that reach mutable state: calling them must be rejected (they were frozen with the table)
+		name := map[string]string{"dict": "KD", "set": "KS"}[kind]
+		it := starlark.Iterate(in.g[name])
+		var k starlark.Value
+		for it.Next(&k) {
+			fn := k
+			if t, ok := k.(starlark.Tuple); ok {
+				fn = t[0]
+			}
+			_, err := starlark.Call(e.th, fn, starlark.Tuple{starlark.MakeInt(7)}, nil)
+			e.rejected(sb, name+".key()", err)
+		}
+		it.Done()
+	}
 	for _, name := range names[kind] {
 		x, y := in.g[name], twin.g[name]
 		switch op {
